@@ -43,6 +43,12 @@ checks["C19"] = dict(level="model_checking", text="Args.tla states the contract 
 checks["C17"] = dict(level="model_checking", text="Output.tla models the group writer (buffer, emit at close) and the prefixed writer (each completed line as four writes under the Prefixed mutex) for concurrently running commands sharing one stream; TLC checks Inv_C17 (OutputProps: the stream is a concatenation of whole blocks / every line whole, once, prefixed; nothing lost or duplicated; error_only iff failed) on every interleaving of the bounded scenarios. The same predicate is evaluated by TLC on streams recorded from the real Executor, whose Stdout is a sink that holds every Write and returns them in harness-enumerated orders; recorded write sequences are validated against Output.tla.",
    note="Trusted: TLC, quiescence sampling, observation at Executor.Stdout with colour off; scenarios of <=3 commands x <=3 chunks.", ref="DESIGN.md 4.4, 5 (C17)", tech="TLA+ model of the output writers checked by TLC + write-order-controlled replay into the real Executor + trace validation", engine="out")
 
+MERGE_TEXT = ("Merge.tla defines, declaratively, the callable table Exp(root) of an include tree (own tasks first, then the lifted entries of every include in declaration order: namespacing, flatten, internal, aliases incl. namespace aliases and the default-task alias, excludes, include dir and vars, root-absolute ':' references) and the error classes (cycle 110, missing file, duplicate 203). TLC enumerates every include tree of the bounded universe as initial states and emits the expected table; ")
+checks["C08"] = dict(level="model_checking", text=MERGE_TEXT + "the driver writes the files, loads them with the real Executor and compares names, aliases, origin, internal, targets of deps and task: references, every other task attribute by reflection against the standalone parse of the defining file, and runs every callable name and alias (origin marker, working directory, include variable, which referenced tasks ran).",
+   note=CASES_NOTE, ref="DESIGN.md 4.3, 5 (C08)", tech="TLA+ declarative merge specification enumerated by TLC (cases), compared with the real loader and with real runs of every callable name", engine="load")
+checks["C09"] = dict(level="model_checking", text=MERGE_TEXT + "every tree is loaded repeatedly in one process under GOMAXPROCS 1/2/4/16 and the canonical dump of the merged table (order, aliases, directories, deps, commands, include and global variables) must be identical across loads.",
+   note=CASES_NOTE + " Determinism is observed over a finite number of repeated loads (8 quick / 60 thorough per tree).", ref="DESIGN.md 4.3, 5 (C09)", tech="TLC-enumerated include trees (Merge.tla) loaded repeatedly by the real reader; canonical dumps compared", engine="load")
+
 ALL = ["C%02d" % i for i in range(1, 21)]
 pending = {p: "check not built yet in this round (planned, see DESIGN.md section 5)" for p in ALL if p not in checks}
 
@@ -58,7 +64,7 @@ m = {
    "kind_free_text": "TLA+ executor model + property monitor; TLC model checking, trace validation, schedule-controlled replay into the real Executor"},
   {"name": "fp", "path": "specs/fp + harness/fpfam", "serves_properties": ["C04","C05","C12"],
    "kind_free_text": "TLA+ model of the up-to-date state machine + monitor; TLC model checking, history replay against the task CLI, TLC evaluation of observed histories"},
-  {"name": "load", "path": "specs/load + harness/loadfam", "serves_properties": ["C15"],
+  {"name": "load", "path": "specs/load + harness/loadfam", "serves_properties": ["C08","C09","C15"],
    "kind_free_text": "TLA+ functional specifications (cases models) enumerated by TLC, compared with the real loader/resolver"},
   {"name": "cli", "path": "specs/cli + harness/clifam", "serves_properties": ["C19"], "kind_free_text": "TLA+ cases specification + CLI driver with argv-recording helper"},
   {"name": "out", "path": "specs/out + harness/outfam", "serves_properties": ["C17"], "kind_free_text": "TLA+ model of group/prefixed writers; blocking-sink replay"},
